@@ -1,10 +1,12 @@
 """C14 - documented-valid configurations always run; invalid ones fail with ValueError."""
 
 import itertools
+import json
 import math
 import os
 
 import numpy as np
+from hypothesis import strategies as st
 
 from checks import common as K
 from framework.core import Facet, Violation, hash32, sut
@@ -624,6 +626,121 @@ def check_fitted(case):
     return {"nontrivial": outcome == "documented_RuntimeError", "classes": ["kind=stuck_chunk", f"method={method}", f"outcome={outcome}"]}
 
 
+# ------------------------------------------------------------------ generated invalid configurations
+
+BOUNDED_KEYS = {
+    "PELT": ("penalty_scale", "min_segment_length"),
+    "MovingWindow": ("threshold_scale", "bandwidth", "level", "min_detection_interval"),
+    "SeededBinarySegmentation": ("threshold_scale", "level", "min_segment_length", "max_interval_length", "growth_factor"),
+    "CircularBinarySegmentation": ("threshold_scale", "level", "min_segment_length", "max_interval_length", "growth_factor"),
+    "CAPA": ("collective_penalty_scale", "point_penalty_scale", "min_segment_length", "max_segment_length"),
+    "MVCAPA": ("collective_penalty_scale", "point_penalty_scale", "min_segment_length", "max_segment_length"),
+}
+
+_neg_float = st.one_of(st.sampled_from([-1.0, -0.5, -1e-9, -3.0]), st.floats(-1e6, -1e-12, allow_nan=False), st.integers(-1000, -1))
+
+
+@st.composite
+def generated_invalid_cases(draw, tier):
+    """A configuration drawn inside the documented domain (the strategy C04 uses) in which ONE hyper-parameter is replaced by a
+    value drawn from the complement of its documented domain; structural choices first, bulk data never (data are a fixed kind)."""
+    det = draw(st.sampled_from(["PELT", "MovingWindow", "SeededBinarySegmentation", "CircularBinarySegmentation", "CAPA", "MVCAPA",
+                                "StatThresholdAnomaliser"]))
+    route = draw(st.sampled_from(["constructor", "set_params", "set_params_after_fit"]))
+    p = 1 if det == "StatThresholdAnomaliser" else draw(st.integers(1, 3))
+    params, n_min = draw(K.detector_params(det, p, allow_cov=False))
+    target, tparams, prefix = det, params, ""
+    if det == "StatThresholdAnomaliser":
+        if draw(st.integers(0, 3)) == 0:
+            lo = draw(st.one_of(st.sampled_from([1.0, 0.0, -2.5]), st.floats(-50, 50, allow_nan=False)))
+            gap = draw(st.one_of(st.sampled_from([1.0, 1e-9, 20.0]), st.floats(1e-9, 100, allow_nan=False)))
+            if lo - gap < lo:
+                bad = {"stat_lower": lo, "stat_upper": lo - gap}
+                return {"detector": det, "params": params, "p": p, "n": max(n_min, 8) + draw(st.integers(0, 30)), "bad": bad,
+                        "why": "stat_lower above stat_upper", "route": route, "prefix": ""}
+        target = params["change_detector"]["cls"]
+        tparams = {k: v for k, v in params["change_detector"].items() if k != "cls"}
+        prefix = "change_detector__"
+    key = draw(st.sampled_from(BOUNDED_KEYS[target]))
+    msl = tparams.get("min_segment_length", 1)
+    as_nan = draw(st.integers(0, 7)) == 0
+    bad, why = {}, None
+    if as_nan:
+        bad, why = {key: {"float": "nan"}}, f"NaN as {key}"
+    elif key.endswith("_scale"):
+        bad, why = {key: draw(_neg_float)}, f"negative {key}"
+    elif key == "min_segment_length":
+        least = 2 if target in ("CAPA", "MVCAPA") else 1
+        bad, why = {key: draw(st.integers(-6, least - 1))}, f"min_segment_length below {least}"
+    elif key == "bandwidth":
+        bad, why = {key: draw(st.integers(-6, 0))}, "bandwidth below 1"
+    elif key == "max_segment_length":
+        bad, why = {key: draw(st.integers(msl - 12, msl - 1))}, "max_segment_length below min_segment_length"
+    elif key == "max_interval_length":
+        bad, why = {key: draw(st.integers(2 * msl - 12, 2 * msl - 1))}, "max_interval_length below 2*min_segment_length"
+    elif key == "growth_factor":
+        g = draw(st.one_of(st.sampled_from([1.0, 2.0000001, 0.5, 3.0, -1.5, 0.0]), st.floats(-5.0, 1.0, allow_nan=False),
+                           st.floats(2.0000001, 1e3, allow_nan=False)))
+        bad, why = {key: g}, "growth_factor outside (1, 2]"
+    elif key == "level":
+        if target == "MovingWindow":
+            bad, why = {key: draw(st.one_of(st.sampled_from([-0.1, -1.0]), st.floats(-10, -1e-9, allow_nan=False)))}, "negative level"
+        else:
+            lv = draw(st.one_of(st.sampled_from([0.0, 1.0, -0.1, 1.5]), st.floats(-10, 0.0, allow_nan=False), st.floats(1.0, 10, allow_nan=False)))
+            bad, why = {key: lv}, "level outside (0, 1)"
+    elif key == "min_detection_interval":
+        bw = tparams["bandwidth"]
+        lo_bad = max(1, bw // 2) + 1  # above bandwidth / 2 (documentation) and above max(1, bandwidth / 2 - 1) (the check)
+        hi = draw(st.integers(lo_bad, lo_bad + 7))
+        bad, why = {key: draw(st.sampled_from([0, -1, hi, hi]))}, "min_detection_interval below 1 or above bandwidth/2"
+    return {"detector": det, "params": params, "p": p, "n": max(n_min, 8) + draw(st.integers(0, 30)),
+            "bad": {prefix + k: v for k, v in bad.items()}, "why": why, "route": route, "prefix": prefix}
+
+
+def _merge_bad(params, bad):
+    out = json.loads(json.dumps(params))
+    for k, v in bad.items():
+        parts = k.split("__")
+        d = out
+        for q in parts[:-1]:
+            d = d[q]
+        d[parts[-1]] = v
+    return out
+
+
+def check_generated_invalid(case):
+    det_name, params, bad = case["detector"], case["params"], case["bad"]
+    X = make_data("generic", case["n"], case["p"], False)
+    stage = "construct"
+    try:
+        with sut(f"{det_name}({case['why']}) via {case['route']}", allowed=(ValueError, RuntimeError)):
+            if case["route"] == "constructor":
+                det = K.build(K.detector_spec(det_name, _merge_bad(params, bad)))
+            else:
+                det = K.build(K.detector_spec(det_name, params))  # inside the documented domain
+                if case["route"] == "set_params_after_fit":
+                    stage = "valid fit"
+                    det.fit(X)
+                stage = "set_params"
+                det.set_params(**K.build(bad))
+            stage = "fit"
+            det.fit(X)
+            stage = "predict"
+            det.predict(X)
+    except ValueError:
+        if stage == "valid fit":
+            return {"nontrivial": False, "classes": ["valid_configuration_rejected_by_cost_min_size"]}
+        return {"nontrivial": True, "classes": [f"rejected_at_{stage}", f"route={case['route']}", f"det={det_name}",
+                                                "nan" if "NaN" in case["why"] else "out_of_domain"]}
+    except RuntimeError:
+        if stage == "valid fit":
+            return {"nontrivial": False, "classes": ["valid_fit_runtime_error"]}
+        raise Violation("hyper-parameters outside the documented domain ended in a RuntimeError instead of ValueError",
+                        detector=det_name, params=params, bad=bad, why=case["why"], route=case["route"], stage=stage)
+    raise Violation("hyper-parameters outside the documented domain were accepted (no ValueError at construction, "
+                    "set_params, fit or predict)", detector=det_name, params=params, bad=bad, why=case["why"], route=case["route"])
+
+
 FACETS = [
     Facet(name="valid_grid", kind="enumerate", enumerate=valid_enumerate, check=check_valid_cell,
           timeout_is_violation=True, time_limit=20.0, exhaustive=True, exhaustive_tiers=("thorough",),
@@ -641,6 +758,14 @@ FACETS = [
                 "companions (every penalty family and a user callable, other savings / scorers, tuned thresholds); "
                 "ValueError must be raised at some stage; every cell is non-trivial"),
           shards_quick=4, shards_thorough=4),
+    Facet(name="generated_invalid", check=check_generated_invalid, strategy=generated_invalid_cases,
+          rule=("a configuration drawn inside the documented domain (all seven detectors, p 1..3, the hyper-parameter strategy of C04) in which ONE "
+                "hyper-parameter - also of the change detector wrapped by StatThresholdAnomaliser, through change_detector__<name> - is replaced by a value "
+                "drawn from the complement of its documented domain (negative scales of any size, lengths below their minimum, maximum below minimum, "
+                "growth factor <= 1 or > 2, level outside (0,1) / negative, min_detection_interval < 1 or > bandwidth/2, stat_lower > stat_upper, NaN), "
+                "through the constructor, through set_params on the valid object, or through set_params after a fit; ValueError must be raised at "
+                "construction, set_params, fit or predict; non-trivial = rejected"),
+          n_quick=400, n_thorough=6000, shards_quick=4, shards_thorough=8),
     Facet(name="fitted_detector_entry_points", kind="enumerate", enumerate=fitted_cells, check=check_fitted, exhaustive=True,
           timeout_is_violation=True, time_limit=20.0,
           rule=("(i) all seven detectors (several minimum lengths) fitted on admissible data, then predict / transform / transform_scores / update_predict "
